@@ -162,7 +162,7 @@ CHECKS["C14"] = {"pkg": "netsim", "test": "TestC14", "level": "exploration",
             "no rejected batch; Clean(p) removes exactly p's chains/rules, Setup(p);Clean(p) restores the table; handed-out ports distinct "
             "per protocol, bind() fails while held and succeeds after CloseHostports; a setup with one port taken fails and leaves every "
             "port it opened bindable. Non-trivial = stale galaxy chains and foreign rules present, >=2 pods, >=1 port.",
-    "assumptions": E3_ASSUME + ["EnsureBasicRule/full sync ran before per-pod Setup/Clean (as galaxy does at start-up)",
+    "assumptions": E3_ASSUME + ["every C14 test process re-executes itself in a private network namespace (unshare -n) so that parallel shards and unrelated processes cannot take a host port between two steps; without namespace support it stays in the shared namespace (class private_netns shows which)", "EnsureBasicRule/full sync ran before per-pod Setup/Clean (as galaxy does at start-up)",
                                 "an explicit port lost to another process between selection and use makes the case inconclusive (counted in coverage.extra)"],
     "floors": {"stale_galaxy_chains": 0.3, "foreign_rules": 0.3}}
 
